@@ -50,6 +50,8 @@ SEEDS = [
     'C1CCCCC1C1CCCC1', 'C1CC1C1CC1', 'C1CCC1C1CCC1', 'C1=CC=CC=C1C1=CC=CC=C1', 'C1CC1CC1CC1', 'C1CC1CCC1CC1', 'C1CCC2(CC1)OCCO2',
     'C[C@H]([13CH3])O', '[13CH3]/C(C)=C/C', '[2H][C@H](C)O', 'C[C@H]([13CH3])[C@H](C)O', 'CC(CC)=[C@]=CC', 'C[C@H](O)[C@H](CCN)[C@H](O)C',
     'ClC(Cl)Cl', 'BrCCBr', 'FC(F)(F)F', 'CSSC', 'C[S-]', 'C[NH-]', '[NH3+]CC([O-])=O',
+    # appended later (seed indices are recorded in replay files): salts for the salt / metal normalisers
+    'CC(=O)O[Na]', 'CO[K]', '[Li]OCC', 'CC(=O)O[Ca]OC(C)=O', 'CN.Cl', 'CC(O)=O.CCN', '[Na+].[K+].CC([O-])=O.[Cl-]', 'N.CCO.[Na+].[OH-]',
 ]
 
 # fixed alphabet of op kinds (weights are drawn per run = swarm testing)
@@ -61,7 +63,8 @@ BASE_W = {'set_meta': 2, 'set_xy': 3, 'obs': 10, 'add_atom': 9, 'add_bond': 12, 
 MUTATORS = {'set_meta', 'set_xy', 'add_atom', 'add_bond', 'del_atom', 'del_bond', 'remap', 'union', 'tx', 'clean_stereo',
             'add_atom_stereo', 'add_ct_stereo', 'invalid', 'opaque'}
 OPAQUE = ['explicify_hydrogens', 'implicify_hydrogens', 'clean_isotopes', 'remove_coordinate_bonds', 'neutralize',
-          'standardize', 'fix_resonance', 'kekule', 'standardize_charges', 'canonicalize', 'clean2d']
+          'standardize', 'fix_resonance', 'kekule', 'standardize_charges', 'canonicalize', 'clean2d',
+          'remove_metals', 'remove_acids', 'split_metal_salts']
 INVALID_KINDS = 15
 
 
